@@ -204,7 +204,12 @@ def main(argv=None):
     with cf.ThreadPoolExecutor(max_workers=a.jobs) as ex:
         futs = [ex.submit(handle, module, pid, o, tw, findings) for o, tw in tasks]
         for f in cf.as_completed(futs):
-            recs.append(f.result())
+            r = f.result()
+            recs.append(r)
+            if os.environ.get("VERIF_PROGRESS"):
+                print("  [%6.1fs] %-50s %-12s paths=%s solve=%ss" % (
+                    time.time() - t0, r["name"], r["outcome"], r["verdict"].get("paths"),
+                    r["verdict"].get("solve_s")), file=sys.stderr, flush=True)
     recs.sort(key=lambda r: r["name"])
 
     rdir = os.path.join(ROOT, "replays", pid)
